@@ -17,43 +17,52 @@ type FirewallRule struct {
 	ToService   string
 }
 
-func buildComp(field string, pattern string) CompareFunc {
+func buildComp(field string, pattern string) (CompareFunc, error) {
 	if pattern == "" {
-		return nil
+		return nil, nil
 	}
-	var comp CompareFunc
 	if strings.HasPrefix(pattern, "/") {
-		comp, _ = regexCompare(field, pattern)
-	} else {
-		comp, _ = stringCompare(field, pattern)
+		return regexCompare(field, pattern)
 	}
 
-	return comp
+	return stringCompare(field, pattern)
 }
 
-func (fr FirewallRule) BuildComps() []CompareFunc {
+func (fr FirewallRule) BuildComps() ([]CompareFunc, error) {
 	var comps []CompareFunc
-	fnc := buildComp("fromnode", fr.FromNode)
+	fnc, err := buildComp("fromnode", fr.FromNode)
+	if err != nil {
+		return nil, err
+	}
 	if fnc != nil {
 		comps = append(comps, fnc)
 	}
 
-	tnc := buildComp("tonode", fr.ToNode)
+	tnc, err := buildComp("tonode", fr.ToNode)
+	if err != nil {
+		return nil, err
+	}
 	if tnc != nil {
 		comps = append(comps, tnc)
 	}
 
-	fsc := buildComp("fromservice", fr.FromService)
+	fsc, err := buildComp("fromservice", fr.FromService)
+	if err != nil {
+		return nil, err
+	}
 	if fsc != nil {
 		comps = append(comps, fsc)
 	}
 
-	tsc := buildComp("toservice", fr.ToService)
+	tsc, err := buildComp("toservice", fr.ToService)
+	if err != nil {
+		return nil, err
+	}
 	if tsc != nil {
 		comps = append(comps, tsc)
 	}
 
-	return comps
+	return comps, nil
 }
 
 // ParseFirewallRule takes a single string describing a firewall rule, and returns a FirewallRuleFunc function.
@@ -93,7 +102,10 @@ func (frd FirewallRuleData) ParseFirewallRule() (FirewallRuleFunc, error) {
 		}
 	}
 
-	comps := fr.BuildComps()
+	comps, err := fr.BuildComps()
+	if err != nil {
+		return nil, err
+	}
 	fwr, err := firewallRule(comps, fr.Action)
 	if err != nil {
 		return nil, err
